@@ -14,8 +14,11 @@ PROP = {'engine': 'c16',
          'recursive template}; value in {0,1,N,>balance}; distinct = distinct (generator kind, entry, gas class, value class, outcome class, '
          'snapshot/revert/depth buckets); non-trivial = executed at least one instruction and (failed, or rolled back an inner frame, or journaled a change)',
  'assumptions': ['the direct-EVM cases run on fresh managers over the head of a mined base chain; gas purchase/refund is outside the EVM and is covered by the end-to-end slice only',
-                 'the in-memory event slice of an account is not state (no production reader); failure events are judged through the journal'],
+                 'the in-memory event slice of an account is not state (no production reader); failure events are judged through the journal',
+                 'steps <= gas+1 is judged for every gas value except the 2^62 depth case; every non-halting instruction must be charged >= 1 gas',
+                 'clause 4/5 are judged at the top level (before/after observation), at every RevertToSnapshot the EVM issues (shadow proxy) and at '
+                 'every nested CALL/CALLCODE/DELEGATECALL/STATICCALL/CREATE instruction whose frame reports failure or is read-only (tracer marks)'],
  'min_cases': {'quick': 2500, 'thorough': 150000},
- 'min_stats': {'quick': {'depth_limit_reached': 1, 'failed_calls_checked': 500, 'static_calls_checked': 50, 'reverts_checked': 500, 'e2e_txs': 50},
-               'thorough': {'depth_limit_reached': 1, 'failed_calls_checked': 20000, 'static_calls_checked': 2000, 'reverts_checked': 20000, 'e2e_txs': 500}},
+ 'min_stats': {'quick': {'depth_limit_reached': 1, 'failed_calls_checked': 500, 'static_calls_checked': 50, 'reverts_checked': 500, 'nested_frames_judged': 1000, 'e2e_txs': 50},
+               'thorough': {'depth_limit_reached': 1, 'failed_calls_checked': 20000, 'static_calls_checked': 2000, 'reverts_checked': 20000, 'nested_frames_judged': 50000, 'e2e_txs': 500}},
  'timeout_s': {'quick': 600, 'thorough': 5400}}
